@@ -140,7 +140,8 @@ def r4_postfix(text):
     # block/let; those are handled case-by-case by the units with @sub.  Here: the simple
     # `.reference()` / `.dereference()` / `.wrap_some()` on an identifier or call chain.
     for name, fmt in (('wrap_ok', 'Ok(%s)'), ('wrap_err', 'Err(%s)'), ('wrap_some', 'Some(%s)'),
-                      ('reference', '(&%s)'), ('dereference', '(*%s)'), ('boxed', 'Box::new(%s)')):
+                      ('reference', '(&%s)'), ('dereference', '(*%s)'), ('boxed', 'Box::new(%s)'),
+                      ('wrap_vec', 'vec![%s]')):
         while True:
             m = re.search(r'\.\s*' + name + r'\(\)', text)
             if not m:
